@@ -123,6 +123,8 @@ Definition dyn_of (sh : shape) (k : N) : dyn :=
   | 0%N => mkDyn (Some (sh_ty sh)) None
   | 1%N => mkDyn (Some (TPtr (TStruct "main.other" 256 []))) (Some (sh_base sh))
   | 2%N => mkDyn None None
+  | 4%N => mkDyn (Some (TOpaque "[]S" 24 8)) (Some (sh_base sh))        (* a slice of containers over the arena *)
+  | 5%N => mkDyn (Some (TPtr (TPtr (sh_ty sh)))) (Some (sh_base sh))     (* a pointer to a pointer to the container *)
   | _ => mkDyn (Some (TPtr (sh_ty sh))) None
   end.
 
